@@ -103,7 +103,7 @@ CONC = {
                 quick_episodes=350, thorough_episodes=4000,
                 rule=SLICE_DISP_RULE, trusted_base=TB_CONC,
                 assumptions=['"all processed, in queue order, after Resume / Restart" combines C03 (progress) and C04 (order) with C09_status_store_keeps_queues']),
-    'C01': dict(module='Properties.C01', file='Properties/C01.v', slices=['job'],
+    'C01': dict(module='Properties.C01', file='Properties/C01.v', slices=['job', 'wake'],
                 families=['burst', 'lifecycle', 'cancel', 'batch', 'saturate', 'persist', 'recover', 'dist', 'multiq', 'pool', 'order'],
                 quick_episodes=150, thorough_episodes=2000, crash_props=['C03'],
                 native=dict(scenarios=['bigburst'], rounds=1, thorough_rounds=1),
